@@ -47,7 +47,7 @@ func checkC01(c *Ctx) {
 	}
 	c.Decides("LEX-LOSSLESS: the Newick scanner functions that consume a run of runes return the buffer they filled as the token literal (whitespace inside comments included)")
 	c.lexLossless("LEX-LOSSLESS", "io/newick")
-	c.Floor("LEX-LOSSLESS", 2)
+	c.Floor("LEX-LOSSLESS", 1)
 	c.Floor("COMMENT-FORM", 1)
 	c.Floor("FIELDS", 6)
 	c.Floor("TABLE", 5)
